@@ -793,7 +793,9 @@ func (fe *FnExec) assert(st *State, goal Term, name, kind string, tags []string,
 	o := &Obligation{Func: shortFn(fe.Fn.String()), Name: fe.oblName(name), Kind: kind, Tags: tags, Path: strings.Join(st.trace, " "),
 		Text: text, Pos: fe.pos(pos), Query: fe.buildQuery(st, goal, false, hdr), Watch: fe.watch}
 	fe.emit(o)
-	st.assume(goal, "proved: "+name)
+	if !fe.noAssume {
+		st.assume(goal, "proved: "+name)
+	}
 }
 
 func (fe *FnExec) cover(st *State, name, text string) {
@@ -1380,7 +1382,11 @@ func (fe *FnExec) havocLoop(st *State, l *Loop) {
 				{
 					name := calleeShortName(x.Common())
 					if _, isB := x.Common().Value.(*ssa.Builtin); !isB || name == "close" {
-						for _, nm := range append([]string{name}, fe.tallyNamesAt(name, fe.callOrd[in])...) {
+						names := append([]string{name}, fe.tallyNamesAt(name, fe.callOrd[in])...)
+						if q := qualifiedCallee(fe.calleeInfo(x.Common())); q != "" {
+							names = append(names, q)
+						}
+						for _, nm := range names {
 							nc := st.freshConst("ncalls."+nm, SInt)
 							st.assume(Ge(nc, st.numCalls(nm)), "calls made so far")
 							st.callNum[nm] = nc
